@@ -281,8 +281,13 @@ fn compile_script(testcases: &[&TestCase], config: &TestCaseConfig, salt: &str) 
                         anyhow!("Environment variable {} contains invalid characters", &qkey),
                     ));
                 }
-                let qval = shell_escape::unix::escape(Cow::from(value)).to_string();
-                expressions.push(format!("export {}={}", &qkey, &qval));
+                // (`\\builtin` and the quoted assignment: a previous test may
+                // have defined a function or alias named `export`, or
+                // switched on `set -k`)
+                expressions.push(format!(
+                    "\\builtin export '{}'",
+                    format!("{}={}", key, value).replace('\'', "'\\''")
+                ));
             }
         }
 
